@@ -49,7 +49,9 @@ def type_of_sample(s):
     if k == 'tuple_struct':
         return ty('tuple_struct', s[2], [type_of_sample(x) for x in s[3]])
     if k == 'map':
-        return ty('map', ty('str'), {a[2]: type_of_sample(b) for a, b in s[2]})
+        kn = lambda a: a[4] if a[1] == 'unit_variant' else a[2]
+        kt = ty('enum', 'K', [('A', 'unit'), ('B', 'unit')]) if s[2] and s[2][0][0][1] == 'unit_variant' else ty('str')
+        return ty('map', kt, {kn(a): type_of_sample(b) for a, b in s[2]})
     if k == 'struct':
         return ty('struct', s[2], [(f, type_of_sample(x)) for f, x in s[3]])
     # one enum type with the four variants of the samples; the payload types of the variant at hand come from the sample
@@ -91,7 +93,7 @@ def value_of_sample(s):
     if k == 'tuple_struct':
         return ('seq', [value_of_sample(x) for x in s[3]])
     if k == 'map':
-        return ('map', sorted((a[2], value_of_sample(b)) for a, b in s[2]))
+        return ('map', sorted(((a[4] if a[1] == 'unit_variant' else a[2]), value_of_sample(b)) for a, b in s[2]))
     if k == 'struct':
         return ('map', sorted((f, value_of_sample(x)) for f, x in s[3] if x[1] != 'none'))
     if k == 'unit_variant':
@@ -118,6 +120,21 @@ class DeInterp(SerdeInterp):
                 return self.visit(visitor[1], 'visit_enum', [('prim-enum', v)]) if isinstance(visitor, tuple) and visitor[0] == 'visitor' else self._call_visitor(visitor, 'visit_enum', [('prim-enum', v)])
             vis = 'visit_bool' if isinstance(v, bool) else 'visit_i64' if isinstance(v, int) else 'visit_f64' if isinstance(v, float) else 'visit_str'
             return self._call_visitor(visitor, vis, [v])
+        if isinstance(rv, tuple) and len(rv) == 2 and rv[0] == 'seq-de' and prefix == DE:
+            # serde's SeqDeserializer over a Vec of values (`values.into_deserializer()`): presents a sequence whose elements are deserializers themselves
+            return self._call_visitor(args[-1], 'visit_seq', [['seq-access', list(rv[1])]])
+        if isinstance(rv, list) and len(rv) == 2 and rv[0] == 'seq-access':
+            if name == 'next_element_seed':
+                if not rv[1]:
+                    return ok(('ctor', NONE))
+                x = rv[1].pop(0)
+                seed = deref(args[0])
+                if not (isinstance(seed, tuple) and seed[0] == 'seed'):
+                    raise Unanalysable('a workspace seed over serde\'s SeqDeserializer')
+                r = self.deserialize(seed[1], x)
+                return ok(('ctor', SOME, (r[2][0],))) if is_ok(r) else r
+            if name == 'size_hint':
+                return ('ctor', SOME, (len(rv[1]),))
         if isinstance(rv, tuple) and len(rv) == 2 and rv[0] == 'prim-enum':
             if name == 'variant_seed':
                 r = self.deserialize(args[0][1], ('prim-de', rv[1])) if isinstance(args[0], tuple) and args[0][0] == 'seed' else None
@@ -255,7 +272,8 @@ class DeInterp(SerdeInterp):
                 kk = deref(r[2][0])
                 if kk == ('ctor', NONE):
                     return ok(('map', sorted(out)))
-                kname_ = kk[2][0][1]
+                kv = kk[2][0]
+                kname_ = kv[1] if kv[0] != 'variant' else kv[1]
                 vt = t[3].get(kname_, ty('ignored')) if isinstance(t[3], dict) else t[3]
                 r = self.trait_like('serde::de::MapAccess', args[0], 'next_value_seed', [('seed', vt)])
                 if not is_ok(r):
@@ -357,6 +375,9 @@ class DeInterp(SerdeInterp):
         if e.get('k') == 'call':
             f = peel(e.get('f', {}))
             p = strip_generics(f.get('path') or '')
+            if p.startswith('serde::de::Deserializer::deserialize_') and len(e.get('args', [])) >= 2:
+                args = [self.val(a, env) for a in e['args']]
+                return self.trait_like(DE, args[0], last_seg(p), args[1:])
             if p.startswith('serde::de::value::') and last_seg(p) == 'new' and len(e.get('args', [])) == 1:
                 a0 = deref(self.val(e['args'][0], env))
                 if isinstance(a0, (str, int, float, bool)):
@@ -365,6 +386,14 @@ class DeInterp(SerdeInterp):
 
     def _mcall(self, e, env):
         name = e.get('name') or ''
+        if name in ('span', 'set_span', 'add_key', 'message', 'set_raw', 'set_original'):
+            recv = deref(self.val(e['recv'], env))
+            if isinstance(recv, tuple) and len(recv) == 2 and recv[0] == 'de-error':
+                # an error raised by the model visitor (`invalid type`, `missing field`, ..) travelling through the deserializer's error decoration
+                for a in e.get('args', []):
+                    self.val(a, env)
+                return ('ctor', NONE) if name == 'span' else recv[1] if name == 'message' else ()
+            return super()._mcall(dict(e, recv=self._bindnode(recv, env, e['recv'])), env)
         if name.startswith('deserialize_') or name == 'contains':
             recv = deref(self.val(e['recv'], env))
             if isinstance(recv, tuple) and len(recv) == 2 and recv[0] == 'prim-de' and name.startswith('deserialize_'):
@@ -377,6 +406,8 @@ class DeInterp(SerdeInterp):
             recv = deref(self.val(e['recv'], env))
             if isinstance(recv, (str, int, float, bool)):
                 return ('prim-de', recv)
+            if isinstance(recv, VecObj) or (isinstance(recv, (tuple, list)) and not (recv and recv[0] in ('ctor', 'struct', 'prim-de', 'seq-de'))):
+                return ('seq-de', list(recv.items if isinstance(recv, VecObj) else recv))
             node = dict(e, recv=self._bindnode(recv, env, e['recv']))
             if self._workspace_method(e) is not None:
                 return super()._mcall(node, env)
